@@ -119,6 +119,7 @@ fn main() {
         "c16classes" => um::c16classes(rest),
         "c16tiny" => um::c16tiny(rest),
         "seqhist" => um::seqhist(rest),
+        "c16chains" => um::c16chains(rest),
         "zstdcat" => util::zstdcat(rest),
         "c20exec" => dictb::c20exec(rest),
         "c14rows" => fmt::c14rows(rest),
